@@ -261,13 +261,18 @@ func canonicalBody(body []byte) (errFlag string, canon string) {
 	return errFlag, "kind=plain"
 }
 
-// cfgLeaves prints the loaded configuration as flattened leaves for the model: path(dotted hex segments)=kind:value
+// cfgLeaves prints the loaded configuration as flattened leaves for the model: path(hex raw keys joined by ".")=kind:value.
+// The raw nested maps are taken per top-level key with viper.Get (AllSettings would re-split and merge keys that
+// themselves contain dots, e.g. [notifier."a.b"]); an empty table is a leaf of kind m.
 func cfgLeaves() string {
 	var out []string
 	var walk func(path []string, v interface{})
 	walk = func(path []string, v interface{}) {
 		switch x := v.(type) {
 		case map[string]interface{}:
+			if len(x) == 0 {
+				out = append(out, strings.Join(path, ".")+"=m:-")
+			}
 			for k, e := range x {
 				walk(append(append([]string{}, path...), hexName(k)), e)
 			}
@@ -293,7 +298,13 @@ func cfgLeaves() string {
 			out = append(out, fmt.Sprintf("%s=s:%s", strings.Join(path, "."), hexName(fmt.Sprint(x))))
 		}
 	}
-	walk(nil, viper.AllSettings())
+	tops := map[string]bool{}
+	for _, k := range viper.AllKeys() {
+		tops[strings.SplitN(k, ".", 2)[0]] = true
+	}
+	for top := range tops {
+		walk([]string{hexName(top)}, viper.Get(top))
+	}
 	sort.Strings(out)
 	if len(out) == 0 {
 		return "-"
@@ -755,14 +766,32 @@ func genConfHTTP(g *gen) {
 		usedNames := map[string]bool{}
 		nameOf := func(r *gen, kind string, k int) string {
 			pool := []string{kind + strconv.Itoa(k), "with space", "ünï", "password", "UPPER", "extras"}
-			if r.chance(1, 4) {
-				nm := strings.ToLower(pool[1+r.intn(len(pool)-1)])
+			try := func(nm string) (string, bool) {
 				if !usedNames[kind+"/"+nm] {
 					usedNames[kind+"/"+nm] = true
+					return nm, true
+				}
+				return "", false
+			}
+			if r.chance(1, 4) {
+				if nm, ok := try(strings.ToLower(pool[1+r.intn(len(pool)-1)])); ok {
 					return nm
 				}
 			}
-			return pool[0]
+			// names that themselves contain dots: viper resolves "<kind>.<name>.<key>" by longest matching prefix, so a
+			// module named like another module's sub-key collides with it (D20)
+			if k > 0 && r.chance(1, 4) {
+				if nm, ok := try(kind + "0." + r.pickS("extras", "password", "class-name", "x", "servers")); ok {
+					return nm
+				}
+			}
+			if r.chance(1, 8) {
+				if nm, ok := try(r.pickS("x.y", "a.b.c", "dot.", ".lead", "x.y.z")); ok {
+					return nm
+				}
+			}
+			nm, _ := try(pool[0])
+			return nm
 		}
 		render := func(pwSeed int64) (string, []string, map[string][]string) {
 			usedNames = map[string]bool{}
@@ -847,8 +876,14 @@ func genConfHTTP(g *gen) {
 			nnot := r.intn(4)
 			for k := 0; k < nnot; k++ {
 				nm := nameOf(r, "not", k)
-				names["notifier"] = append(names["notifier"], nm)
 				cls := r.pickS("http", "email", "slack", "null")
+				if k == 1 && i%4 == 0 && !usedNames["not/"+names["notifier"][0]+".extras"] {
+					// the D20 pair: a module named like the first module's extras table, holding a password
+					nm = names["notifier"][0] + ".extras"
+					usedNames["not/"+nm] = true
+					cls = r.pickS("http", "email")
+				}
+				names["notifier"] = append(names["notifier"], nm)
 				t.section("notifier", nm)
 				t.str("class-name", cls)
 				t.num("interval", 30)
